@@ -319,7 +319,8 @@ def run(spec, mon):
         if mode == 1 and not case["cfg"]["dry_run"]:
             obs0 = lab.run(case["program"], args=case["args"])
             if obs0.hooks:
-                case = dict(case, hook_fault={"k": rng.randrange(len(obs0.hooks)), "exc": rng.choice(["Exception", "AssertionError"])})
+                case = dict(case, hook_fault={"k": rng.randrange(len(obs0.hooks)), "exc": rng.choice(["Exception", "AssertionError"]),
+                                              "message": hostile.text(rng, sep=" ") if rng.random() < 0.7 else ""})
         elif mode == 2 and not case["cfg"]["dry_run"]:
             case = dict(case, cleanup_plan={"register_in": rng.choice(["before_scenario", "before_feature", "after_scenario", "before_rule"])})
         run_case(lab, mon, case, rng, messages, noisy, sample=(i == 0 and spec["shard"] == 0))
